@@ -85,7 +85,7 @@ func cmdCheck(args []string) int {
 	repo := fs.String("repo", "/repo", "repository root")
 	verbose := fs.Bool("v", false, "verbose")
 	workers := fs.Int("workers", 16, "parallel workers")
-	solver := fs.String("solver", "z3", "z3|z3-new|cvc5")
+	solver := fs.String("solver", "cvc5", "z3|z3-new|cvc5")
 	noEvidence := fs.Bool("no-evidence", false, "do not write the evidence file")
 	trace := fs.Bool("trace", false, "collect per-function query statistics")
 	fs.Parse(args)
@@ -471,7 +471,7 @@ func nativeReplays(repo, prop string, ld *symgo.Loaded, results []*harnessResult
 		// witnesses: quick replays up to 4 per harness (selection rotated by seed), thorough all
 		var labels []string
 		for l, w := range hr.X.Reached {
-			if w != nil && w.Draws != nil {
+			if w != nil && w.Draws != nil && !contains(hr.Spec.NativeSkip, l) {
 				labels = append(labels, l)
 			}
 		}
